@@ -72,7 +72,7 @@ Definition xFn (v : nat) (z : qci) : qci :=
   cidiv (ciadd z (qI (qc (Z.of_nat v + 2) 1))) (ciadd (cimul z z) (qI (qc (2 * Z.of_nat v + 5) 1))).
 Definition xIc (v m : nat) : qci := qI (qc (7 + 3 * Z.of_nat v + Z.of_nat m) 5).
 
-Definition xenv (D : positive) : lenv QcIF := LEnv QcIF (xex D) (xsn D) (xcs D) xabs xpi xneg xFn xIc.
+Definition xenv (D : positive) : lenv QcIF := LEnv QcIF (xex D) (xsn D) (xcs D) xabs xpi is_real xneg xFn xIc.
 Definition xorc (D : positive) (N : nf QcIF) : option (qci -> qci) := Some (fun s => nf_val QcIF (xex D) s N).
 
 Definition ev_code (e : ev) : nat :=
@@ -85,7 +85,7 @@ Fixpoint nats_eqb (a b : list nat) : bool :=
    value where Lcapy returned one; 4 = value agrees only... (unused) *)
 Definition run_case (F : forms QcIF) (D : positive) (zic : bool) (e : tx QcIF) (s0 : qci)
                     (want : qci) (evs : list nat) (check_events : bool) : nat :=
-  match doit QcIF (xex D) cii xneg F (xorc D) zic e with
+  match doit QcIF (xex D) cii is_real xneg F (xorc D) zic e with
   | (Some X, mevs) =>
       if qci_eqb (X s0) want then
         (if check_events then (if nats_eqb (map ev_code mevs) evs then 0 else 2) else 0)%nat
@@ -93,6 +93,6 @@ Definition run_case (F : forms QcIF) (D : positive) (zic : bool) (e : tx QcIF) (
   | (None, _) => 3%nat
   end.
 Definition model_value (F : forms QcIF) (D : positive) (zic : bool) (e : tx QcIF) (s0 : qci) : option qci :=
-  match doit QcIF (xex D) cii xneg F (xorc D) zic e with (Some X, _) => Some (X s0) | (None, _) => None end.
+  match doit QcIF (xex D) cii is_real xneg F (xorc D) zic e with (Some X, _) => Some (X s0) | (None, _) => None end.
 Definition model_events (F : forms QcIF) (D : positive) (zic : bool) (e : tx QcIF) : list nat :=
-  map ev_code (snd (doit QcIF (xex D) cii xneg F (xorc D) zic e)).
+  map ev_code (snd (doit QcIF (xex D) cii is_real xneg F (xorc D) zic e)).
